@@ -1,7 +1,7 @@
 (* Model of /repo/packet/packetwriter.go : packetWriter.Write and ReadFrom, the adapters
    IOWriter / IOWriteCloser / NopCloser / PacketWriterFunc being plain delegation.
-   ReadFrom is the REPAIRED code (notes/candidate-fixes.patch, hunk packet/packetwriter.go:
-   io.ReadFull instead of a single Read, io.ErrUnexpectedEOF mapped to io.EOF; defect F2).
+   ReadFrom is the REPAIRED code (/repo commit 2f35340: a fill loop that reads until one packet
+   is complete or the reader fails, instead of a single Read per packet; defect F2).
 
    ORACLES (never axioms; contracts restated next to the theorems in Properties/C18.v):
    - wrapped packet writer  w : call index -> packet bytes -> (n, err)   (`wfun`);
@@ -65,11 +65,13 @@ Definition weight (st : rstate) : nat :=
   | Script s => S (fold_right (fun ce acc => S (length (fst ce)) + acc)%nat O s)
   end.
 
-(* io.ReadFull(r, buf) = io.ReadAtLeast(r, buf, len(buf)), len(buf) = 188:
-     for n < min && err == nil { nn, err = r.Read(buf[n:]); n += nn }
-     if n >= min { err = nil } else if n > 0 && err == EOF { err = ErrUnexpectedEOF }
-   acc = buf[:n] *)
-Fixpoint read_at_least (fuel : nat) (st : rstate) (acc : bytes) (err : option N)
+(* the fill loop of the repaired ReadFrom (len(buf) = 188):
+     nr := 0; var er error
+     for nr < PacketSize && er == nil { k, er = r.Read(buf[nr:]); nr += k }
+   acc = buf[:nr].  Every Read consumes a script element or at least one byte, so weight + 2
+   iterations suffice for a FINITE script; a reader that returns (0, nil) for ever makes this loop
+   (like io.ReadFull) spin: such a reader is outside the script oracle. *)
+Fixpoint fill_packet (fuel : nat) (st : rstate) (acc : bytes) (err : option N)
   : Res (bytes * option N * rstate) :=
   match fuel with
   | O => Diverge
@@ -78,22 +80,19 @@ Fixpoint read_at_least (fuel : nat) (st : rstate) (acc : bytes) (err : option N)
     | None =>
       if (length acc <? PacketSize)%nat then
         let '((c, oe), st') := rd_read st (PacketSize - length acc) in
-        read_at_least f st' (acc ++ c) oe
+        fill_packet f st' (acc ++ c) oe
       else Ok (acc, None, st)
-    | Some e =>
-      Ok (acc,
-          if (PacketSize <=? length acc)%nat then None
-          else if (0 <? length acc)%nat && (e =? E.EOF) then Some E.UnexpectedEOF else Some e,
-          st)
+    | Some e => Ok (acc, Some e, st)
     end
   end.
-Definition read_full (st : rstate) : Res (bytes * option N * rstate) :=
-  read_at_least (weight st + 2) st [] None.
+Definition fill_one (st : rstate) : Res (bytes * option N * rstate) :=
+  fill_packet (weight st + 2) st [] None.
 
 (* ------------------------------------------------------------------ ReadFrom (repaired) *)
 (*  buf := pw.pkt[:]
     for {
-      nr, er := io.ReadFull(r, buf); if er == io.ErrUnexpectedEOF { er = io.EOF }
+      nr := 0; var er error
+      for nr < PacketSize && er == nil { var k int; k, er = r.Read(buf[nr:]); nr += k }
       if nr == PacketSize {
         nw, ew := pw.WritePacket(&pw.pkt)
         if nw > 0 { n += int64(nw) }
@@ -108,11 +107,7 @@ Fixpoint rf_loop (fuel : nat) (w : wfun) (st : rstate) (pkt : bytes) (n : Z) (er
   match fuel with
   | O => Diverge
   | S f =>
-    let? (data, er0, st') := read_full st in
-    let er := match er0 with
-              | Some e => if e =? E.UnexpectedEOF then Some E.EOF else Some e
-              | None => None
-              end in
+    let? (data, er, st') := fill_one st in
     let pkt' := blit pkt 0 data in
     let nr := length data in
     let finish (n : Z) (err : option N) (k : nat) (calls : list bytes) :=
